@@ -135,7 +135,17 @@ fn make_fixtures() -> Fixtures {
 		let meta = vec![("avro.schema".to_owned(), vmiri::fixtures::SCHEMA_TEXT.as_bytes().to_vec()), ("avro.codec".to_owned(), name.as_bytes().to_vec())];
 		let layout = vmodel::container::MetaLayout { blocks: vec![2], sized: false };
 		let file = vmodel::container::cf_write(&meta, &layout, vmiri::fixtures::SYNC, name, &[(1, v0.clone()), (1, v1.clone())]).unwrap_or_else(|e| machinery(&format!("reference model cannot write the {name} fixture: {e}")));
-		fx.files[c.index()] = Some(file);
+		fx.set_file(c, 0, file);
+		// the "sized" file: one record per block, decompressed block sizes up / down / up beyond the first / up
+		let blocks: Vec<(u64, Vec<u8>)> = (0..vmiri::fixtures::SIZED_LENS.len())
+			.map(|k| {
+				let mut b = Vec::new();
+				rec(&vmiri::fixtures::sized_value(k), &mut b);
+				(1, b)
+			})
+			.collect();
+		let file = vmodel::container::cf_write(&meta, &layout, vmiri::fixtures::SYNC, name, &blocks).unwrap_or_else(|e| machinery(&format!("reference model cannot write the sized {name} fixture: {e}")));
+		fx.set_file(c, 1, file);
 	}
 	fx
 }
@@ -284,7 +294,7 @@ fn parse_out(stdout: &str) -> ExecOut {
 }
 
 /// First diagnostic of a detector in a process's stderr: (kind, text). kind: "ub", "race", "leak",
-/// "unsupported", "asan", "valgrind", "deadlock".
+/// "unsupported", "abort", "asan", "valgrind", "deadlock".
 fn detector_diag(stderr: &str) -> Option<(&'static str, String)> {
 	let lines: Vec<&str> = stderr.lines().collect();
 	for (i, l) in lines.iter().enumerate() {
@@ -293,8 +303,14 @@ fn detector_diag(stderr: &str) -> Option<(&'static str, String)> {
 			let kind = if l.contains("Data race") || l.contains("data race") { "race" } else { "ub" };
 			return Some((kind, ctx()));
 		}
-		if l.starts_with("error: unsupported operation") || l.starts_with("error: abnormal termination") {
+		if l.starts_with("error: unsupported operation") {
 			return Some(("unsupported", ctx()));
+		}
+		// the interpreted program called abort(): a panic that cannot unwind, e.g. std's check of an unsafe
+		// precondition (`Vec::set_len` beyond the capacity, ...)
+		if l.starts_with("error: abnormal termination") {
+			let why = lines[..i].iter().rev().find(|p| p.contains("unsafe precondition") || p.contains("panicked at")).map(|p| format!("{p} | ")).unwrap_or_default();
+			return Some(("abort", format!("{why}{}", ctx())));
 		}
 		if l.starts_with("error: memory leaked") {
 			return Some(("leak", ctx()));
@@ -600,6 +616,7 @@ fn miri_exec(ctx: &Ctx, tag: &str, lines: &[(usize, String)], deadline: Duration
 						let class = match *kind {
 							"race" => "miri-data-race",
 							"deadlock" => "miri-deadlock",
+							"abort" => "miri-abort",
 							_ => "miri-undefined-behavior",
 						};
 						v.push(report::Violation { class: class.to_owned(), what: format!("{w} (miri): {}", report::truncate(text, 900)), replay });
@@ -764,7 +781,7 @@ pub fn run(rep: &mut Report) {
 	let lines_given: Vec<(usize, String)> = miri_hist.iter().enumerate().map(|(i, h)| (i, history_line(i, h, expected.get(&i)))).collect();
 	// wall-clock budget of the Miri phase (the list is fixed and handed out round-robin in shortest-first
 	// order, so what a capped run covers is a prefix of it; the cap is reported)
-	let miri_deadline = Duration::from_secs_f64(if thorough { 420.0 } else { 95.0 } * miri_scale());
+	let miri_deadline = Duration::from_secs_f64(if thorough { 420.0 } else { 60.0 } * miri_scale());
 	let ms = if skip_miri {
 		cover.caps.push("VERIF_C10_SKIP: Miri phases skipped".to_owned());
 		MiriStats { done: HashSet::new(), total: lines_given.len(), processes: 0 }
@@ -868,6 +885,52 @@ pub fn run(rep: &mut Report) {
 		cover.impl_runs += t.histories + t.ref_runs;
 		cover.count(&format!("valgrind_histories_ccodecs_depth{}", p.depth), t.histories);
 	}
+	if thorough {
+		// the extras (incl. the C-codec sized files read to the end) as an explicit list: natively, and
+		// under AddressSanitizer and valgrind
+		let mut xs: Vec<Vec<Op>> = Profile::extras();
+		xs.extend(Profile::extras_ccodecs());
+		let xlines: Vec<(usize, String)> = xs.iter().enumerate().map(|(i, h)| (i, history_line(i, h, None))).collect();
+		let xwhat = |i: usize| -> (String, serde_json::Value) {
+			let tok = xs.get(i).map(|h| ops::history_token(h)).unwrap_or_else(|| "?".to_owned());
+			(format!("history {}", describe_token(&tok)), json!({"check": "C10", "kind": "history", "history": tok, "detector": "native"}))
+		};
+		let done = native_exec(&ctx, "extras", &xlines, &mut viols, &xwhat);
+		cover.impl_runs += done.len() as u64;
+		cover.count("native_extras_incl_ccodecs", done.len() as u64);
+		for det in [Detector::Asan, Detector::Valgrind] {
+			if skipped(det.name()) {
+				continue;
+			}
+			let ls: Vec<String> = xlines.iter().map(|(_, l)| l.clone()).collect();
+			let f = write_batch(&ctx, &format!("{}-extras.txt", det.name()), &ls);
+			let out = run_proc(sweep_cmd_exec(&ctx, det, &f), Duration::from_secs(900));
+			let parsed = parse_out(&out.stdout);
+			cover.impl_runs += parsed.ended.len() as u64;
+			cover.count(&format!("{}_extras", det.name()), parsed.ended.len() as u64);
+			for (idx, r) in &parsed.ended {
+				if let Err((class, op, detail)) = r {
+					let (w, mut replay) = xwhat(*idx);
+					replay["detector"] = json!(det.name());
+					viols.push(report::Violation { class: class.clone(), what: format!("{w} ({}): at operation #{op}: {detail}", det.name()), replay });
+				}
+			}
+			if out.code != Some(0) || parsed.z_done.is_none() {
+				let diag = detector_diag(&out.stderr);
+				match (&parsed.in_flight, out.code) {
+					(_, Some(2)) => machinery(&format!("{} extras: {}", det.name(), report::truncate(out.stderr.trim(), 600))),
+					(Some(idx), _) => {
+						let (w, mut replay) = xwhat(idx.trim().parse().unwrap_or(usize::MAX));
+						replay["detector"] = json!(det.name());
+						let how = diag.map(|(k, t)| format!("{k}: {t}")).unwrap_or_else(|| format!("process died (exit {:?}, signal {:?})", out.code, out.signal));
+						viols.push(report::Violation { class: format!("{}-report", det.name()), what: format!("{w} ({}): {}", det.name(), report::truncate(&how, 900)), replay });
+						cover.caps.push(format!("{} extras: stopped at the first report", det.name()));
+					}
+					(None, _) => machinery(&format!("{} extras process failed outside any case (exit {:?}, signal {:?}): {}", det.name(), out.code, out.signal, report::truncate(out.stderr.trim(), 600))),
+				}
+			}
+		}
+	}
 	if thorough && (skipped("asan") || skipped("valgrind")) {
 		cover.caps.push("VERIF_C10_SKIP: AddressSanitizer / valgrind phase skipped".to_owned());
 	}
@@ -901,6 +964,7 @@ pub fn run(rep: &mut Report) {
 	guard("values that borrow from their input", totals.values_with_borrows);
 	guard("values inspected after schema and reader were dropped", totals.inspections_after_owner_gone);
 	guard("reads from compressed blocks", totals.reads_compressed_ok);
+	guard("reads of a compressed block larger than every earlier one, after a smaller one (decompression buffer regrown)", totals.reads_regrown_block);
 	guard("reader errors", totals.reads_err);
 	guard("operations on another thread", totals.remote_ops);
 	guard("schema obtained from a reader used after the reader was dropped", totals.reader_schema_used_after_reader_drop);
@@ -1031,7 +1095,7 @@ pub fn replay(v: &serde_json::Value) -> i32 {
 	};
 	// Undefined behaviour need not show in a fresh native process (it depends on what the heap held):
 	// every replay also runs under a detector - Miri, or AddressSanitizer when a C codec is involved.
-	let uses_c_codec = r["history"].as_str().and_then(ops::parse_history).map_or(false, |h| h.iter().any(|o| matches!(o, Op::Open(_, c) if c.is_c())));
+	let uses_c_codec = r["history"].as_str().and_then(ops::parse_history).map_or(false, |h| h.iter().any(|o| matches!(o, Op::Open(_, c, _) if c.is_c())));
 	let det = match detector.as_str() {
 		"asan" | "valgrind" => detector.as_str(),
 		_ if uses_c_codec => "asan",
